@@ -63,6 +63,7 @@ fn expected_replacements(input: &[u8], lossy: &str) -> u32 {
 
 fn check_utf8(input: &[u8], cuts: &[usize], st: &mut Stats) -> bool {
     let want = String::from_utf8_lossy(input);
+    tendril::verif::reset(8 * (input.len() as u64 + cuts.len() as u64) + 64);
     let r = catch(|| {
         let mut d = Utf8LossyDecoder::new(Rec::default());
         for c in split_bytes(input, cuts) {
@@ -70,6 +71,8 @@ fn check_utf8(input: &[u8], cuts: &[usize], st: &mut Stats) -> bool {
         }
         d.finish()
     });
+    st.max("max_decoder_steps_per_run", tendril::verif::steps());
+    tendril::verif::reset(u64::MAX);
     st.evaluations += 1;
     match r {
         Err(m) => {
@@ -205,6 +208,9 @@ fn check_encoding(enc: &'static encoding_rs::Encoding, input: &[u8], cuts: &[usi
     } else {
         want.into_owned()
     };
+    // logical step budget (tick hook in the decoder loops): a decoder that stops making progress
+    // is reported deterministically instead of hanging the check
+    tendril::verif::reset(8 * (input.len() as u64 + cuts.len() as u64) + 64);
     let r = catch(|| {
         let mut d: LossyDecoder<Rec> = LossyDecoder::new_encoding_rs(enc, Rec::default());
         for c in split_bytes(input, cuts) {
@@ -212,9 +218,12 @@ fn check_encoding(enc: &'static encoding_rs::Encoding, input: &[u8], cuts: &[usi
         }
         d.finish()
     });
+    st.max("max_decoder_steps_per_run", tendril::verif::steps());
+    tendril::verif::reset(u64::MAX);
     st.evaluations += 1;
     let rep = || json!({"kind": "enc", "encoding": enc.name(), "bytes": hex(input), "cuts": cuts});
     match r {
+        Err(m) if m.contains("decoder step budget exceeded") => st.violation("enc:no-bounded-progress", &format!("{} bytes [{}] cuts={:?}: the decoder loop exceeded 8*(bytes+chunks)+64 steps (it does not terminate)", enc.name(), hex(&input[..input.len().min(40)]), &cuts[..cuts.len().min(8)]), rep()),
         Err(m) => st.violation(&format!("enc:panic:{}", crate::report::panic_signature(&m)), &format!("{} bytes [{}] cuts={cuts:?}: panic {m}", enc.name(), hex(&input[..input.len().min(40)])), rep()),
         Ok(rec) => {
             if rec.out != want {
